@@ -1,0 +1,26 @@
+//go:build verif
+
+// Copyright 2025 NVIDIA CORPORATION
+// SPDX-License-Identifier: Apache-2.0
+
+package controllers
+
+import (
+	"k8s.io/apimachinery/pkg/runtime"
+	"sigs.k8s.io/controller-runtime/pkg/client"
+
+	"github.com/NVIDIA/KAI-scheduler/pkg/queuecontroller/controllers/childqueues_updater"
+	"github.com/NVIDIA/KAI-scheduler/pkg/queuecontroller/controllers/resource_updater"
+)
+
+// NewQueueReconcilerForSim wires a QueueReconciler the way SetupWithManager does, without a
+// manager (simulation harness only). The client must provide the parent-queue and pod-group-queue
+// field indexes.
+func NewQueueReconcilerForSim(c client.Client, scheme *runtime.Scheme) *QueueReconciler {
+	return &QueueReconciler{
+		Client:             c,
+		Scheme:             scheme,
+		resourceUpdater:    resource_updater.ResourceUpdater{Client: c},
+		childQueuesUpdater: childqueues_updater.ChildQueuesUpdater{Client: c},
+	}
+}
